@@ -1166,6 +1166,8 @@ func (p *parser) parseStructAliases(fieldsForValidation []*ast.VarDecl) (structA
 		if aliasTokens, err := scanner.ScanAlias(*rawAlias, errHandleWrapper); err == nil && !didError {
 			if len(aliasTokens) < 2 { // empty strings are not allowed (we need at leas 1 token + EOF)
 				p.err(ddperror.SEM_MALFORMED_ALIAS, rawAlias.Range, "Ein Alias muss mindestens 1 Symbol enthalten")
+			} else if slices.ContainsFunc(fieldsForValidation, func(f *ast.VarDecl) bool { return f.Type == nil }) {
+				// the type of a field could not be parsed (already reported), so the alias can neither be checked nor compared
 			} else if err, args := p.validateStructAlias(aliasTokens, fieldsForValidation); err == nil {
 				if ok, isFunc, existingAlias, pTokens := p.aliasExists(aliasTokens); ok {
 					p.err(ddperror.SEM_ALIAS_ALREADY_TAKEN, rawAlias.Range, ddperror.MsgAliasAlreadyExists(rawAlias.Literal, existingAlias.Decl().Name(), isFunc))
